@@ -233,3 +233,52 @@ Proof.
       rewrite skipn_app, skipn_all, Nat.sub_diag. reflexivity. }
     rewrite E. reflexivity.
 Qed.
+
+(* ---------------------------------------------------------------- put_co2_level / parser_1298, put_indoor_humidity / parser_12a0 *)
+Definition sym_co2 : list sym := slit "00" ++ shex 4.
+Definition sym_hum : list sym := slit "00" ++ shex 2.
+Lemma co2_hum_shapes : spayload_ok V_I 0x1298 sym_co2 = true /\ spayload_ok V_I 0x12A0 sym_hum = true.
+Proof. split; vm_compute; reflexivity. Qed.
+
+Lemma hexN4_is_7FFF x : 0 <= x < 65536 -> str_eqb (hexN 4 x) (lit "7FFF") = (x =? 0x7FFF).
+Proof.
+  intros Hx. destruct (x =? 0x7FFF) eqn:E.
+  - apply Z.eqb_eq in E. subst x. vm_compute. reflexivity.
+  - apply Z.eqb_neq in E. destruct (str_eqb (hexN 4 x) (lit "7FFF")) eqn:S; [|reflexivity].
+    apply str_eqb_eq in S. exfalso. apply E.
+    assert (I : int16 (hexN 4 x) = Some x) by (apply int16_hexN; [lia|exact Hx]).
+    rewrite S in I. vm_compute in I. congruence.
+Qed.
+
+(* what put_co2_level builds is accepted by the regenerated I|1298 regex, and the decoder gives back: no sensor for None, the level for every whole
+   number of ppm below 7FFF -- and, for the levels the four digits can still spell, "no sensor" for 32767 and a sensor FAULT from 32768 up *)
+Theorem put_co2_level_valid n : (forall x, n = Some x -> 0 <= x < 65536) ->
+  payload_ok V_I 0x1298 (put_co2_payload n) = true /\
+  parser_1298 (put_co2_payload n) =
+    Ok (match n with None => Co2None | Some x => if x =? 0x7FFF then Co2None else if 0x8000 <=? x then Co2Fault else Co2Level x end).
+Proof.
+  intros Hn. assert (W : 0 <= word_of_opt n < 65536) by (destruct n as [x|]; cbn; [apply Hn; reflexivity|lia]).
+  split.
+  - apply (spayload_ok_sound V_I 0x1298 sym_co2 _ (proj1 co2_hum_shapes)). unfold sym_co2, put_co2_payload.
+    apply (conc_app _ _ (lit "00") (hexN 4 _) (conc_slit "00") (conc_hexN 4 _)).
+  - unfold parser_1298, put_co2_payload.
+    rewrite (slice_mid_end (lit "00") (hexN 4 (word_of_opt n)) 2 6 eq_refl (hexN_length 4 _)).
+    rewrite hexN_length. cbn [Nat.eqb negb]. rewrite (hexN4_is_7FFF _ W).
+    destruct n as [x|]; cbn [word_of_opt].
+    + destruct (x =? 0x7FFF); [reflexivity|]. rewrite int16_hexN by (try lia; apply Hn; reflexivity). destruct (0x8000 <=? x); reflexivity.
+    + reflexivity.
+Qed.
+
+Corollary put_co2_level_roundtrip x : 0 <= x < 0x7FFF -> parser_1298 (put_co2_payload (Some x)) = Ok (Co2Level x).
+Proof.
+  intros Hx. destruct (put_co2_level_valid (Some x)) as (_ & E); [intros y [= <-]; lia|]. rewrite E.
+  replace (x =? 0x7FFF) with false by (symmetry; apply Z.eqb_neq; lia). replace (0x8000 <=? x) with false by (symmetry; apply Z.leb_gt; lia). reflexivity.
+Qed.
+
+(* what put_indoor_humidity builds (whole percents 0..100, or None) is accepted by the regenerated I|12A0 regex and decodes to that percentage /
+   to "no sensor" -- by a sweep over the 101 bytes and EF *)
+Theorem put_indoor_humidity_valid :
+  forallb (fun b => payload_ok V_I 0x12A0 (put_humidity_payload (Some b)) &&
+                    match parser_12a0_short (put_humidity_payload (Some b)) with Ok (HumPct c) => c =? b | _ => false end) (zrange 101 0) = true /\
+  payload_ok V_I 0x12A0 (put_humidity_payload None) = true /\ parser_12a0_short (put_humidity_payload None) = Ok HumNone.
+Proof. split; [|split]; vm_compute; reflexivity. Qed.
